@@ -111,7 +111,12 @@ pub fn canonical_shadow(w: &World) -> u64 {
 }
 
 pub fn run(profile: &Profile, run: &mut Run) {
-    let plans = (profile.plans)(run.tier);
+    let mut plans = (profile.plans)(run.tier);
+    if cfg!(feature = "fs_s4") {
+        // configuration s4a differs from s1a in one respect that matters to these checks: the
+        // native mark-sweep space sweeps lazily; only plan MarkSweep uses that space
+        plans.retain(|p| *p == "MarkSweep");
+    }
     let mut jobs: Vec<(&str, &str)> = vec![];
     for p in &plans {
         for v in (profile.variants)(p, run.tier) {
